@@ -1,4 +1,5 @@
 import Tickit.Proof.RectSet
+import Tickit.Proof.RectSetInv
 import Tickit.Gen.Leaf
 /-
   C05 — A rectangle set is exactly the union of what was added minus what was subtracted.
@@ -191,17 +192,56 @@ theorem history_exact_partial (fuel : Nat) (ops : List Op) (s : List Rect)
   run_exact_noSub fuel ops [] s (fun _ _ => False) h hv hn (by simp)
     (fun l c => ⟨fun h => (covered_nil l c h).elim, fun h => h.elim⟩)
 
+/-! ### the invariant of the stored array
+
+`RectSet.Inv s` (defined in `Proof/RectSetInv.lean`, restated by `inv_def`): members non-empty, pairwise
+disjoint, strictly sorted by (top, left), no two members share a vertical edge segment of positive length
+(`NoVEdge`), and no two members with equal columns are vertically adjacent (`NoStack`).  The last clause
+is needed: without it `subtract` is wrong (`subtract_needs_noStack`), and `add` maintains it. -/
+
+theorem inv_def (s : List Rect) :
+    Inv s ↔ ((∀ x ∈ s, x.Nonempty) ∧ s.Pairwise Rect.Disjoint ∧
+      s.Pairwise (fun a b => a.top < b.top ∨ (a.top = b.top ∧ a.left < b.left)) ∧
+      (∀ a ∈ s, ∀ b ∈ s, a ≠ b →
+        ¬ ((a.right = b.left ∨ b.right = a.left) ∧ a.top < b.bottom ∧ b.top < a.bottom)) ∧
+      (∀ a ∈ s, ∀ b ∈ s, ¬ (a.left = b.left ∧ a.right = b.right ∧ a.bottom = b.top))) := Iff.rfl
+
+/-- `add` preserves the invariant, for every fuel. -/
+theorem add_inv (fuel : Nat) (s s' : List Rect) (r : Rect)
+    (h : RectSet.add fuel s r = some s') (hr : r.Nonempty) (hs : Inv s) : Inv s' :=
+  (inv_iff s').2 (add_invS h hr ((inv_iff s).1 hs))
+
+theorem addMany_inv (fuel : Nat) (s ps s' : List Rect)
+    (h : RectSet.addMany fuel s ps = some s') (hps : ∀ p ∈ ps, p.Nonempty) (hs : Inv s) : Inv s' :=
+  (inv_iff s').2 (addMany_invS h hps ((inv_iff s).1 hs))
+
+theorem translate_inv (s : List Rect) (d k : Int) (hs : Inv s) : Inv (RectSet.translate s d k) :=
+  (inv_iff _).2 (invS_translate ((inv_iff s).1 hs) d k)
+
+theorem clear_inv (s : List Rect) : Inv (RectSet.clear s) := (inv_iff _).2 invS_nil
+
+/-- **`contains` is exact**: it answers "yes" exactly when every cell of the query is covered. -/
+theorem contains_iff_full (fuel : Nat) (s : List Rect) (q : Rect) (b : Bool) (hs : Inv s) (hq : q.Nonempty)
+    (h : RectSet.contains fuel s q = some b) : (b = true ↔ ∀ l c, q.Mem l c → Covered s l c) := by
+  cases b with
+  | true => exact ⟨fun _ => RectSet.contains_sound fuel s q h hq, fun _ => rfl⟩
+  | false =>
+    obtain ⟨l, c, h1, h2⟩ := contains_complete fuel s q h ((inv_iff s).1 hs) hq
+    exact ⟨fun hh => Bool.noConfusion hh, fun hh => absurd (hh l c h1) h2⟩
+
+/-- Without `NoVEdge` the shortcut of `contains` is wrong (DESIGN §7): this array is disjoint, sorted and
+    non-empty and covers the query, yet the answer is "no". -/
+theorem contains_needs_noVEdge :
+    RectSet.contains 10 [⟨0, 5, 6, 5⟩, ⟨2, 0, 4, 5⟩] ⟨2, 0, 2, 10⟩ = some false := by decide +kernel
+
+/-- Without `NoStack` the index loop of `subtract` skips a member: this array is disjoint, sorted,
+    non-empty and has no shared vertical edge, yet `(3,3,1,1)` survives the subtraction of `(2,2,2,2)`.
+    (Not reachable through the API: `add` never leaves two stackable members, see `add_inv`.) -/
+theorem subtract_needs_noStack :
+    RectSet.subtract 100 [⟨0, 0, 1, 2⟩, ⟨1, 0, 1, 2⟩, ⟨2, 0, 1, 4⟩, ⟨3, 3, 1, 1⟩] ⟨2, 2, 2, 2⟩ =
+      some [⟨0, 0, 3, 2⟩, ⟨3, 3, 1, 1⟩] := by decide +kernel
+
 /-! ### statements kept at full strength, not yet proved (see engines.d/C05.json `open_statements`) -/
-
-/-- The invariant of the stored array the remaining clauses need. -/
-def NoVEdge (s : List Rect) : Prop :=
-  ∀ a ∈ s, ∀ b ∈ s, a ≠ b → ¬ ((a.right = b.left ∨ b.right = a.left) ∧ a.top < b.bottom ∧ b.top < a.bottom)
-
-def SortedTL (s : List Rect) : Prop :=
-  s.Pairwise (fun a b => a.top < b.top ∨ (a.top = b.top ∧ a.left < b.left))
-
-def Inv (s : List Rect) : Prop :=
-  (∀ x ∈ s, x.Nonempty) ∧ s.Pairwise Rect.Disjoint ∧ SortedTL s ∧ NoVEdge s
 
 /-- Full statement of the history clause (open): exact region, disjoint, sorted, non-empty. -/
 def history_exact_full : Prop :=
@@ -212,11 +252,6 @@ def history_exact_full : Prop :=
 def subtract_removes : Prop :=
   ∀ (fuel : Nat) (s s' : List Rect) (r : Rect), Inv s → r.Nonempty →
     RectSet.subtract fuel s r = some s' → Inv s' ∧ ∀ l c, Covered s' l c → ¬ r.Mem l c
-
-/-- Full statement of the containment query (open: the "no" answers). -/
-def contains_iff_full : Prop :=
-  ∀ (fuel : Nat) (s : List Rect) (q : Rect) (b : Bool), Inv s → q.Nonempty →
-    RectSet.contains fuel s q = some b → (b = true ↔ ∀ l c, q.Mem l c → Covered s l c)
 
 /-! ### the generated leaf function is the model's -/
 
@@ -240,5 +275,10 @@ example : runOps 100 [] [.add ⟨0, 0, 3, 3⟩, .sub ⟨1, 1, 1, 1⟩, .xl 1 1] 
     some [⟨1, 1, 1, 3⟩, ⟨2, 1, 1, 1⟩, ⟨2, 3, 1, 1⟩, ⟨3, 1, 1, 3⟩] := by decide +kernel
 
 example : RectSet.contains 10 [⟨0, 0, 1, 6⟩, ⟨1, 4, 2, 2⟩] ⟨0, 4, 3, 2⟩ = some true := by decide +kernel
+
+/-- The invariant holds of a concrete array with touching members, and `contains` answers "no" on it. -/
+example : Inv [⟨0, 0, 1, 6⟩, ⟨1, 4, 2, 2⟩] ∧
+    RectSet.contains 10 [⟨0, 0, 1, 6⟩, ⟨1, 4, 2, 2⟩] ⟨0, 3, 2, 2⟩ = some false :=
+  ⟨(inv_iff _).2 (by decide +kernel), by decide +kernel⟩
 
 end Tickit.Props.C05
